@@ -15,7 +15,29 @@ from ..q import common
 VERIF = os.path.dirname(os.path.dirname(os.path.dirname(os.path.abspath(__file__))))
 
 
-def run(scenario, args=None, plan=None, timeout=90, env_extra=None, module="vf.real.scenario"):
+def session_pids(sid, exclude_tracker=True):
+    out = []
+    for d in os.listdir("/proc"):
+        if not d.isdigit():
+            continue
+        try:
+            with open(f"/proc/{d}/stat") as f:
+                st = f.read()
+            fields = st.rsplit(")", 1)[1].split()
+            if int(fields[3]) != sid or fields[0] == "Z":
+                continue
+            cmd = open(f"/proc/{d}/cmdline", "rb").read()
+        except (OSError, IndexError, ValueError):
+            continue
+        is_tracker = b"resource_tracker" in cmd
+        if exclude_tracker and is_tracker:
+            continue
+        out.append(int(d))
+    return out
+
+
+def run(scenario, args=None, plan=None, timeout=90, env_extra=None, module="vf.real.scenario",
+        post=None):
     tmp = tempfile.mkdtemp(prefix="vfR_")
     out = os.path.join(tmp, "out.json")
     env = dict(os.environ)
@@ -40,6 +62,12 @@ def run(scenario, args=None, plan=None, timeout=90, env_extra=None, module="vf.r
         p.wait(timeout)
     except subprocess.TimeoutExpired:
         status = "timeout"
+    extra = None
+    if post is not None and status == "ok":
+        try:
+            extra = post(p.pid, tmp, out)
+        except Exception as e:      # noqa
+            extra = dict(post_error=repr(e))
     # clean up the whole session (workers, trackers) by process group
     try:
         os.killpg(p.pid, signal.SIGKILL)
@@ -64,4 +92,4 @@ def run(scenario, args=None, plan=None, timeout=90, env_extra=None, module="vf.r
     stdio = open(os.path.join(tmp, "stdio.log"), "rb").read().decode(errors="replace")[-3000:]
     shutil.rmtree(tmp, ignore_errors=True)
     return dict(status=status, rc=p.returncode, result=res, hooks=hooks, stdio=stdio,
-                wall=round(time.time() - t0, 2), tmp=tmp)
+                wall=round(time.time() - t0, 2), tmp=tmp, post=extra)
